@@ -252,9 +252,20 @@ LinRollback(g) ==
   /\ \E r \in {"ok", "nothing"} : MatchR(g, r) /\ Rollback(CallOf(g).c, r)
   /\ SetPend(g, "done")
 
+\* C04, bounded delay (sustain profile, single consumer under the default cleaner): Commit returns carry a timestamp and the
+\* number of values the consumer has committed; what was committed more than cooldown + slack before this Size call
+\* must have been reclaimed by the time Size is evaluated, although state changes keep arriving
+DuePos(g) ==
+  LET c == CallOf(g)
+      js == {j \in 1..(pend[g].line - 1) : /\ TLog[j].ev = "ret" /\ "pos" \in DOMAIN TLog[j] /\ TLog[j].exec = c.exec
+                                            /\ TLog[j].r = "ok" /\ TLog[j].ts + c.bound_us <= c.ts}
+  IN IF js = {} THEN 0 ELSE TLog[CHOOSE j \in js : \A k \in js : k <= j].pos
+Timed(g) == "bound_us" \in DOMAIN CallOf(g)
+
 LinSize(g) ==
   /\ pend[g].st = "called" /\ CallOf(g).op = "Size"
-  /\ IF HasRet(g) /\ Chk("retention") THEN SizeObs(RetOf(g).n) ELSE UNCHANGED vars
+  /\ (Chk("reclaim") /\ Timed(g)) => base >= DuePos(g)
+  /\ IF HasRet(g) /\ (Chk("retention") \/ (Chk("reclaim") /\ Timed(g))) THEN SizeObs(RetOf(g).n) ELSE UNCHANGED vars
   /\ SetPend(g, "done")
 
 LinSlice(g) ==
